@@ -24,7 +24,8 @@ from pdmesh_common import split
 PROP = "C07"
 S_MODELS = ["hardsphere", "hayter_msa", "squarewell", "stickyhardsphere"]
 QUICK_P = ["sphere", "cylinder", "vesicle", "hollow_cylinder", "core_multi_shell", "ellipsoid",
-           "core_shell_sphere", "parallelepiped", "fuzzy_sphere", "lamellar"]
+           "core_shell_sphere", "parallelepiped", "fuzzy_sphere", "lamellar", "fractal_core_shell", "stacked_disks",
+           "pringle"]
 
 
 def form_factors():
@@ -86,7 +87,7 @@ def run(chk, args):
         pm = form_factors() if thorough else QUICK_P
         for P in pm:
             for S in S_MODELS:
-                for rep in range(6 if thorough else 2):
+                for rep in range(6 if thorough else 3):
                     tid += 1
                     scen.append({"tid": tid, "P": P, "S": S, "seed": rng.randrange(1 << 30),
                                  "dim": "2d" if rep % 3 == 2 else "1d"})
